@@ -16,6 +16,9 @@ use vcore::run::{Run, guarded, machinery_failure, quick_hash, spaced_samples};
 use vcore::synt::{self, Node, TokKind};
 
 /// token classes of the soup alphabet
+const LENGTH5_CLASSES: [&str; 20] = [
+  "class", "function", "val", "let", "if", "else", "match", "(", ")", "{", "}", "<", ",", ":", "=", "->", ".", "Foo", "bar", "1",
+];
 const CLASSES: [&str; 30] = [
   "class", "interface", "import", "from", "function", "method", "val", "let", "if", "else",
   "match", "private", "(", ")", "{", "}", "<", ">", ",", ";", ":", "=", "->", ".", "+", "-",
@@ -358,7 +361,15 @@ fn main() {
   let mut soup_samples: Vec<String> = vec![];
   for len in 1..=max_len {
     // full alphabet up to length 2 (quick) / 3 (thorough); common classes beyond
-    let alphabet: &[&str] = if len <= max_len - 1 { &all } else { &CLASSES };
+    // (thorough, length 5: 20 of the classes - the interning heap of the subject keeps every string it
+    // ever saw for the life of the process, so the number of inputs per process bounds the memory)
+    let alphabet: &[&str] = if len <= max_len - 1 {
+      &all
+    } else if run.quick() {
+      &CLASSES
+    } else {
+      &LENGTH5_CLASSES
+    };
     // one chunk per first token: all soups of one length together would not fit into memory
     for first in 0..alphabet.len() {
       let mut soups: Vec<String> = vec![];
@@ -405,7 +416,10 @@ fn main() {
 
   // ---- 2. single-edit neighbourhood of corpus files ----
   let files = corpus::all_files();
-  let files = if run.quick() { corpus::smallest(files, 20) } else { files };
+  // (both tiers: the 20 smallest files - every variant is a whole run of the front end that leaves its
+  // interned strings behind; the complete corpus needs hours and more than 40 GB. Thorough uses the
+  // full replacement menu.)
+  let files = corpus::smallest(files, 20);
   // (one file at a time: the variants of all files together would not fit into memory)
   let mut n_edits = 0usize;
   let mut edit_samples: Vec<(String, String)> = vec![];
